@@ -147,23 +147,23 @@ def extended_intrinsic_op_unanchored(src, ctx):
         return False
     for l in src.split("\n"):
         l = strip_comment(l)
-        if _paren_net(l) == 0 or not re.search(r"(?i)\boperator\b", l):
+        if _paren_net(l) == 0 or not re.search(r"(?i)\b(operator|assignment)\b", l):
             continue
         head = re.split(r"(?i)\bonly\s*:|\binterface\b|\bgeneric\b.*?::|\buse\b[^,]*,", l, maxsplit=1)
         body = head[-1]
         parts = body.split(",")
         # greedy regrouping: an unbalanced entry extends to the following ones
-        rest = [x for x in parts if not re.search(r"(?i)\boperator\b", x)]
+        rest = [x for x in parts if not re.search(r"(?i)\b(operator|assignment)\b", x)]
         if _paren_net(",".join(rest)) == 0 or len(parts) == 1:
             return True
         # the imbalance may spill over the comma (`operator(//, assignment(=)`)
-        bad = [k for k, x in enumerate(parts) if re.search(r"(?i)\boperator\b", x) and _paren_net(x) != 0]
+        bad = [k for k, x in enumerate(parts) if re.search(r"(?i)\b(operator|assignment)\b", x) and _paren_net(x) != 0]
         if not bad:
             continue
         i = bad[0]
         for j in range(i + 1, len(parts) + 1):
             others = parts[:i] + parts[j:]
-            if _paren_net(",".join(others)) == 0 and not any(re.search(r"(?i)\boperator\b", x) and _paren_net(x) for x in others):
+            if _paren_net(",".join(others)) == 0 and not any(re.search(r"(?i)\b(operator|assignment)\b", x) and _paren_net(x) for x in others):
                 return True
     return False
 
